@@ -1,7 +1,9 @@
 //! Correspondence harness: drives the real `meshless_voronoi` code (built from /repo with
 //! `--cfg meshless_voro_verif`) and writes line-protocol records `op id family inputs | results`.
+mod gen;
 mod ops;
 mod proto;
+mod ser;
 mod rng;
 
 use std::io::Write;
@@ -45,6 +47,8 @@ fn main() {
             return;
         }
         "insphere" => ops::insphere::run(&mut out, &mut rng, thorough),
+        "tess" => ops::tess::run(&mut out, &mut rng, thorough),
+        "cells" => ops::cells::run(&mut out, &mut rng, thorough),
         _ => {
             eprintln!("unknown op {}", op);
             std::process::exit(2);
